@@ -11,6 +11,8 @@ ASSUMPTIONS = [
     "all identities are checked with the real kappa code on both sides (no abstraction of kappa); work items fix the composition of the recoded sequence",
     "symbolic groups: one membership Boolean per letter and group, presented as lists of upper-case letters; case/order/container variants are concrete spellings",
     "kappa_X(g1,g2) == kappa_X(g2,g1) is asserted for disjoint groups only (with an overlap the first group wins, so the two calls denote different partitions)",
+    "Omega / kappa_X(PEDKR) are additionally evaluated on an object whose delta-max cache holds an arbitrary non-negative value (over-approximation of 'get_kappa() was called "
+    "first'); counterexamples are replayed through the real history get_kappa(), get_deltaMax(), then the getter",
     "kappa values are compared unless the delta/deltaMax ratio is within 1e-9 of the clamp thresholds 1.0 / 1.1 (jump of the documented clamp)",
 ]
 OUTSIDE = ["sequence lengths above the bound", "groups with duplicate members in symbolic form"]
@@ -76,13 +78,29 @@ def run_item(item):
         I.solver.add(count(in_set(v, PEDKR) for v in vs) == item["j"])
         recoded = SymStr([FD([(in_set(v, PEDKR), "E"), (z3.Not(in_set(v, PEDKR)), "K")]) for v in vs])
 
+        dcache = z3.Real("cached_dmax")
+        I.solver.add(dcache >= 0)
+
+        def cached():
+            # object whose delta-max cache is in an arbitrary 'filled' state (reached in real histories by get_kappa()/get_deltaMax() first)
+            o = SP()
+            o.SeqObj.dmax = Sym(dcache, "real")
+            return o
+
         def thunk():
-            return (I.call(SP().get_Omega, [], {}), I.call(SP(recoded).get_kappa, [], {}), I.call(SP().get_kappa_X, [list(PEDKR)], {}))
+            return (I.call(SP().get_Omega, [], {}), I.call(SP(recoded).get_kappa, [], {}), I.call(SP().get_kappa_X, [list(PEDKR)], {}),
+                    I.call(cached().get_Omega, [], {}), I.call(cached().get_kappa_X, [list(PEDKR)], {}))
+
+        def cexh(m):
+            return dict(cex(m), history=["get_kappa", "get_deltaMax"])
 
         def on_return(ob, val, m):
-            o, k, kx = val
+            o, k, kx, o2, kx2 = val
+            val = val[:3]
             prove_kappa_equal(ob, o, k, "Omega == kappa(recoded sequence) (%s)" % item["name"], cex, m)
             prove_kappa_equal(ob, o, kx, "Omega == kappa_X(PEDKR) (%s)" % item["name"], cex, m)
+            prove_kappa_equal(ob, o2, k, "Omega == kappa(recoded sequence) when the object's delta-max cache is filled (%s)" % item["name"], cexh, m)
+            prove_kappa_equal(ob, kx2, k, "kappa_X(PEDKR) == kappa(recoded sequence) when the object's delta-max cache is filled (%s)" % item["name"], cexh, m)
             q = seq_of_model(m, vs)
             want = [SequenceParameters(q).get_Omega(), SequenceParameters("".join("E" if c in PEDKR else "K" for c in q)).get_kappa(), SequenceParameters(q).get_kappa_X(list(PEDKR))]
             if deep_close(list(concrete(m, val)), want, 1e-9):
@@ -201,7 +219,13 @@ def run_item(item):
 def replay(cex):
     from localcider.sequenceParameters import SequenceParameters
     kind, seq = cex["kind"], cex["seq"]
-    sp = lambda q=seq: SequenceParameters(q)
+
+    def sp(q=seq):
+        o = SequenceParameters(q)
+        if q == seq:
+            for h in cex.get("history", []):
+                getattr(o, h)()
+        return o
 
     def differ(x, y):
         if abs(x - y) <= TOL:
